@@ -40,6 +40,16 @@ CLAIMS = {
     text='TLC checks ImplCorrect (slice arithmetic = reference, refusal exactly outside the documented length restrictions), AdjointIsTranspose, ExtendThenCropIsIdentity, OverlapCopied, AxisOrderIrrelevant, LinearRampLaw, ComplexAgrees and the range-geometry model for all n_in, n_out in 1..5 x offsets x 5 modes x {forward c=0, forward c=3, adjoint} in 1-d and every grow/shrink mixture with per-axis sizes 1..3 in 2-d. ~5200 exported configurations are replayed on the real code (int32/int64/float/complex, with/without out, C/F order, restricted axes, numpy.pad agreement, ResizingOperator call/adjoint/inverse via ran_shp, explicit range and default offset, adjoint identities in the weighted inner products, padding larger than the array) - ~47k real calls - and ~17k recorded events are validated by TLC.',
     note='Trusted: TLC. When shrinking by an odd number with the default offset either side may lose the extra cell; .inverse values are compared only where the inverse is a pure crop.',
     ref='4/C16'),
+ 'C17': dict(
+    technique='TLA+ rules for result kind/shape/dtype and exact values of integer-valued ufuncs and their methods (UfuncSem) checked by TLC, layer-C model of the result-space construction in __array_ufunc__ (UfuncResSpaceImpl) refined against it; export replayed on real tensor/discretised/power-space elements; TLC trace validation (Trace_Ufunc) with NumPy-on-raw-arrays as environment oracle',
+    text='TLC checks that the shape/kind/dtype rules are total and consistent and the method laws hold (keepdims, iterated reduce, accumulate vs reduce, reduceat, outer, at) over kind x method x nin/nout x shapes up to (2,3,2) x every axis subset (negative and mixed-sign) x keepdims x out kind x operand order x dtype keyword, and exports ~1900 cases with expected shape, kind, dtype and exact values. They are replayed on real elements, and 84 of 85 NumPy ufuncs x dtypes x element kinds x methods x out kinds (~10k combinations) are executed: every event carries the observed result and the reference obtained from the same ufunc on the raw ndarrays (ulp distance), result kind/shape/dtype, out identity, mixed operand order, no-copy wrapping, asarray round trip and the legacy x.ufuncs agreement; ~31.7k events validated by TLC.',
+    note='The property defines NumPy as the value oracle (environment oracle, <= 2 ulp); exact values only for integer-valued ufuncs. Only "same kind, matching shape and dtype" is demanded of the result space. Open findings KF-C17-5/6: product-space elements have no __array_ufunc__ (out=, at, partial reduce raise; dtypes cast back).',
+    ref='4/C17'),
+ 'C19': dict(
+    technique='TLA+ rational rigid-motion semantics (GeomSem: rational rotations, Rodrigues, Euler ZXZ) with relations checked by TLC, layer-C models of slicing / factory extents / shape rule (GeomImpl); export replayed on the five real geometry classes with rational parameters passed as floats; TLC trace validation (Trace_Geom)',
+    text='TLC checks on every configuration (geometry descriptor x rational angle x detector parameter): rotation orthonormal with determinant 1, detector point = reference point + rotated surface point, det_to_src consistent with the source position (unit length when normalised), parallel-beam direction constant in u and orthogonal to the detector axes, angle group law; the broadcast shape rule and the slice rule are total. ~1700 exported configurations are replayed on Parallel2d/3dAxis/3dEuler, FanBeam, ConeBeam (flat and curved detectors, helical pitch, translations, init matrices): scalar, vectorised, broadcast, sliced and original-after-slice evaluation, frommatrix, and the factories (every volume corner projects inside the detector); ~12.8k events (71k public calls) incl. 1500 random rational configurations validated by TLC.',
+    note='Rational parameters (Pythagorean angles, rational axes) make all true values rational; outputs snapped with the scenario denominator. Vectorised vs single evaluation compared with 4*2^-30 relative slack. ASTRA absent (skipped). Open findings KF-C19-3/4 (curved detector frames), KF-C19-7 (factory coverage; the repair changes values pinned by existing tests), KF-C19-8 (zero det_pos_init).',
+    ref='4/C19'),
  'C04': dict(
     technique='TLA+ expression stack machine (OpMachine) with reference semantics OpSem; TLC exhaustive + simulated program export replayed through the real Python overloads; layer-C model of class selection / scalar merging (RewriteImpl) refined against the table; TLC trace validation (Trace_OpMachine)',
     text='A behaviour of OpMachine is a well-typed operator program. TLC enumerates all programs with <= 3 construction steps over 12 leaf kinds and 16 combinators (real, array-weighted real, complex), checks sanity invariants of the reference (structural linearity implies additivity, adjoint identity, stencil derivative) and that the layer-C transcription of the overload rules evaluates to the documented table (it exhibits the pinned tree\'s (A*a)*B defect as a counter-example when the slip is switched on), exports every program with Eval at probe points, domain, range and linearity, plus -simulate behaviours up to 7 steps. Each program is rebuilt from real ODL operators via +,-,*,/,** and evaluated out-of-place and in-place (NaN-prefilled out) on 2 and 120 entries; every real evaluation is re-evaluated by TLC from the logged program.',
